@@ -318,7 +318,7 @@ def run_check(prop, tier, seed, replay=None):
 
     for k, idxs in sorted(known_hits.items()):
         print("KNOWN-FINDING: property=%s %s: %s (%d cases, e.g. %s)" % (
-            pid, k, known_keys[k]["what"], len(idxs), json.dumps(prop.describe(cases[idxs[0]]))))
+            pid, k, known_keys[k]["what"], len(idxs), json.dumps(prop.describe(cases[idxs[0]]))[:300]))
     print("%s %s seed=%d: %d theorems (%d discharged), %d cases (%d non-trivial), %d disagreements, "
           "%d property failures, %.1fs" % (pid, tier, seed, obligations, discharged, len(cases),
                                            len(nontrivial), len(disagree), len(failing), time.time() - t0))
